@@ -69,8 +69,11 @@ pub fn dash_path(path: &Path, dash_array: &[f32], mut dash_offset: f32) -> Path 
     #[cfg(raqote_verif)]
     let mut verif_ticks = 0;
 
-    // adjust our position in the dash array by the dash offset
-    while dash_offset > state.remaining_length {
+    // adjust our position in the dash array by the dash offset. An offset that uses up an
+    // entry completely puts us at the start of the next one (with `>` we would instead sit at
+    // the end of the used up entry and, if that is a gap, the dash starting the subpath would
+    // not be held back for joining with a dash reaching the end of a closed subpath)
+    while dash_offset >= state.remaining_length {
         #[cfg(raqote_verif)]
         crate::verif::tick("dash_path (offset)", &mut verif_ticks, verif_limit(total_dash_length));
         dash_offset -= state.remaining_length;
